@@ -154,4 +154,4 @@ class StepClock(object):
     def reach_list(self):
         if self.reach is None:
             return []
-        return sorted((self.rel(f), l) for f, l in self.reach)
+        return sorted(set((self.rel(f), l or 0) for f, l in self.reach))
